@@ -8,7 +8,7 @@ in {0, +-2}, entries and flipped complements pairwise distinct), flip lists = un
 D.x.3 patches, K.28 and alternate-7 patches hit unused slots.
 Not decided: invertibility, run length, comma freedom (value properties of the logic)."""
 import ast
-from ..core import AnalysisError, norm, const_fold
+from ..core import AnalysisError, norm, const_fold, cnorm
 from .. import boolx as B
 from .. import q
 from ..rules_stream import fx_of, fail_closed, prio, short
@@ -140,7 +140,7 @@ def run(ctx):
                  "table_4b3b_kn": "reverse_table(table_3b4b, 4)", "table_4b3b_kp": "reverse_table([~x & 15 for x in table_3b4b], 4)"}
     for k, v in want_defs.items():
         got = norm(m.const(k))
-        ctx.ob("K3", F, k, f"defined as {short(v, 50)}", got == v, f"{k} = {got}")
+        ctx.ob("K3", F, k, f"defined as {short(v, 50)}", cnorm(m.const(k)) == cnorm(v), f"{k} = {got}")
     patches = {}
     for st in m.tree.body:
         if isinstance(st, ast.Assign) and isinstance(st.targets[0], ast.Subscript) and isinstance(st.targets[0].value, ast.Name):
@@ -173,12 +173,12 @@ def run(ctx):
     # disparity helper: n1 - n0
     df = m.func("disparity")
     ret = [norm(n.value) for n in ast.walk(df) if isinstance(n, ast.Return)]
-    ok = ret == ["n1 - n0"] and any(isinstance(n, ast.If) and norm(n.test) == "word & 1 << i" for n in ast.walk(df))
+    ok = ret == ["n1 - n0"] and any(isinstance(n, ast.If) and cnorm(n.test) == cnorm("word & 1 << i") for n in ast.walk(df))
     ctx.ob("K3", F, "disparity", "disparity = ones - zeros", ok, "" if ok else f"returns {ret}")
     # encoder special cases reference the same literals
     fx = fx_of(ctx, F, "SingleEncoder")
     k28 = [a for a in fx.find(domain="sync", target="code6b") if a.v == "48"]
-    ok = len(k28) == 1 and B.equivalent(k28[0].eff(), B.from_expr("self.k & (self.d[:5] == 28)"))
+    ok = len(k28) == 1 and q.EQ(k28[0], B.from_expr("self.k & (self.d[:5] == 28)"))
     ctx.ob("K3", F, "SingleEncoder", "K.28 encodes to 110000 (the slot patched in the decoder table)", ok, "" if ok else f"{[(a.v, a.gtext()) for a in k28]}")
     o4 = {a.v for a in fx.find(domain="comb", target="output_4b") if a.v in ("7", "8")}
     ctx.ob("K3", F, "SingleEncoder", "alternate D.x.7 emits 0111 / 1000 (the slots patched in the decoder table)", o4 == {"7", "8"}, f"{o4}")
@@ -205,7 +205,7 @@ def run(ctx):
         ctx.ob("K4", F, "SingleEncoder", "0111 at RD- with alt7_rd0, 1000 at RD+ with alt7_rd1", ok,
                "" if ok else f"0111 under {B.show(g7)}, 1000 under {B.show(g8)}", arms["7"].line)
         for v in ("7", "8"):
-            dd = [a for a in fx.find(domain="comb", target="self.disp_out") if B.equivalent(a.eff(), arms[v].eff())]
+            dd = [a for a in fx.find(domain="comb", target="self.disp_out") if q.EQ(a, arms[v].eff())]
             ok = len(dd) == 1 and dd[0].v == "~disp_inter"
             ctx.ob("K4", F, "SingleEncoder", f"alternate code {'0111' if v == '7' else '1000'} flips the running disparity", ok,
                    "" if ok else f"{[(a.v, a.gtext()) for a in dd]}", arms[v].line)
